@@ -28,6 +28,54 @@ def _cmp_int(node, left_src, op, what):
     return _int(node.comparators[0], what)
 
 
+def _self_chain(node):
+    while isinstance(node, ast.Attribute):
+        node = node.value
+    return isinstance(node, ast.Name) and node.id == "self"
+
+
+def inline_aliases(fn):
+    """copy of the function in which every local that is assigned exactly once, by `name = self.a.b…`, is replaced
+    by that attribute expression (and the assignment dropped) – provided the function never stores to the
+    attribute.  `x = self._y; use(x)` and `use(self._y)` then have the same shape, whatever the local is called."""
+    import copy
+    fn = copy.deepcopy(fn)
+    params = {a.arg for a in fn.args.args + fn.args.kwonlyargs + fn.args.posonlyargs}
+    stores = {}
+    for n in ast.walk(fn):
+        if isinstance(n, ast.Name) and isinstance(n.ctx, (ast.Store, ast.Del)):
+            stores[n.id] = stores.get(n.id, 0) + 1
+        elif isinstance(n, ast.ExceptHandler) and n.name:
+            stores[n.name] = stores.get(n.name, 0) + 1
+        elif isinstance(n, (ast.Global, ast.Nonlocal)):
+            for name in n.names:
+                stores[name] = stores.get(name, 0) + 2
+    attr_stores = {_src(n) for n in ast.walk(fn) if isinstance(n, ast.Attribute) and isinstance(n.ctx, (ast.Store, ast.Del))}
+    alias = {}
+    for n in ast.walk(fn):
+        if isinstance(n, ast.Assign) and len(n.targets) == 1 and isinstance(n.targets[0], ast.Name) \
+                and isinstance(n.value, ast.Attribute) and _self_chain(n.value):
+            name = n.targets[0].id
+            if stores.get(name) == 1 and name not in params and _src(n.value) not in attr_stores:
+                alias[name] = n.value
+
+    class T(ast.NodeTransformer):
+        def visit_Assign(self, node):
+            if len(node.targets) == 1 and isinstance(node.targets[0], ast.Name) and node.targets[0].id in alias \
+                    and node.value is alias[node.targets[0].id]:
+                return None
+            return self.generic_visit(node)
+
+        def visit_Name(self, node):
+            if isinstance(node.ctx, ast.Load) and node.id in alias:
+                return copy.deepcopy(alias[node.id])
+            return node
+
+    fn = T().visit(fn)
+    ast.fix_missing_locations(fn)
+    return fn
+
+
 def generate():
     errors = []
     body = "import LoguruModel.Py.Basic\nset_option linter.unusedVariables false\nnamespace Exc.Gen\n\n"
@@ -45,11 +93,15 @@ def generate():
             raise Unsupported("__init__ does not store max_length unchanged")
 
         # ---- _format_value: try repr / except Exception / placeholder / truncation
-        fv = find_func(tree, "_format_value", CLS)
-        if len(fv.body) != 4:
-            raise Unsupported("_format_value has %d statements, expected 4" % len(fv.body))
-        tr, asg, cond, ret = fv.body
-        if not (isinstance(tr, ast.Try) and len(tr.body) == 1 and _src(tr.body[0]) == "v = repr(v)"
+        fv = inline_aliases(find_func(tree, "_format_value", CLS))
+        if len(fv.args.args) != 2:
+            raise Unsupported("_format_value: parameters")
+        pv = fv.args.args[1].arg          # the value parameter, whatever it is called
+        ml = "self._max_length"           # (a local alias of it has been inlined)
+        if len(fv.body) != 3:
+            raise Unsupported("_format_value has %d statements (after inlining aliases), expected 3" % len(fv.body))
+        tr, cond, ret = fv.body
+        if not (isinstance(tr, ast.Try) and len(tr.body) == 1 and _src(tr.body[0]) == "%s = repr(%s)" % (pv, pv)
                 and len(tr.handlers) == 1 and not tr.orelse and not tr.finalbody):
             raise Unsupported("_format_value: try block shape")
         h = tr.handlers[0]
@@ -58,34 +110,32 @@ def generate():
             raise Unsupported("_format_value: repr is guarded by `except %s` (property needs every Exception)" % guard)
         if not (len(h.body) == 1 and isinstance(h.body[0], ast.Assign) and isinstance(h.body[0].value, ast.BinOp)
                 and isinstance(h.body[0].value.op, ast.Mod) and isinstance(h.body[0].value.left, ast.Constant)
-                and _src(h.body[0].value.right) == "type(v).__name__" and _src(h.body[0].targets[0]) == "v"):
+                and _src(h.body[0].value.right) == "type(%s).__name__" % pv and _src(h.body[0].targets[0]) == pv):
             raise Unsupported("_format_value: placeholder shape")
         ph = h.body[0].value.left.value
         if ph.count("%s") != 1 or "%" in ph.replace("%s", ""):
             raise Unsupported("placeholder format %r" % ph)
         ph_pre, ph_post = ph.split("%s")
-        if _src(asg) != "max_length = self._max_length":
-            raise Unsupported("_format_value: max_length read")
         if not (isinstance(cond, ast.If) and isinstance(cond.test, ast.BoolOp) and isinstance(cond.test.op, ast.And)
-                and len(cond.test.values) == 2 and _src(cond.test.values[0]) == "max_length is not None"
+                and len(cond.test.values) == 2 and _src(cond.test.values[0]) == ml + " is not None"
                 and not cond.orelse and len(cond.body) == 1):
             raise Unsupported("_format_value: truncation test shape")
         c2 = cond.test.values[1]
-        if _src(c2) != "len(v) > max_length":
+        if _src(c2) != "len(%s) > %s" % (pv, ml):
             raise Unsupported("_format_value: truncation comparison is `%s`" % _src(c2))
         cut = cond.body[0]
-        if not (isinstance(cut, ast.Assign) and _src(cut.targets[0]) == "v" and isinstance(cut.value, ast.BinOp)
+        if not (isinstance(cut, ast.Assign) and _src(cut.targets[0]) == pv and isinstance(cut.value, ast.BinOp)
                 and isinstance(cut.value.op, ast.Add) and isinstance(cut.value.right, ast.Constant)
                 and isinstance(cut.value.right.value, str) and isinstance(cut.value.left, ast.Subscript)
-                and _src(cut.value.left.value) == "v" and isinstance(cut.value.left.slice, ast.Slice)
+                and _src(cut.value.left.value) == pv and isinstance(cut.value.left.slice, ast.Slice)
                 and cut.value.left.slice.lower is None and cut.value.left.slice.step is None
                 and isinstance(cut.value.left.slice.upper, ast.BinOp)
                 and isinstance(cut.value.left.slice.upper.op, ast.Sub)
-                and _src(cut.value.left.slice.upper.left) == "max_length"):
+                and _src(cut.value.left.slice.upper.left) == ml):
             raise Unsupported("_format_value: truncation assignment shape: " + _src(cut))
         cut_n = _int(cut.value.left.slice.upper.right, "truncation cut")
         ellipsis = cut.value.right.value
-        if _src(ret) != "return v":
+        if _src(ret) != "return " + pv:
             raise Unsupported("_format_value: return")
 
         # ---- _format_relevant_values: a value is laid out on the lines of value.split("\n")
@@ -227,12 +277,13 @@ def generate():
         cinit = find_func(ccls[0], "__init__")
         if len(stores) != 1 or "self._from_decorator = from_decorator" not in [_src(x) for x in cinit.body]:
             raise Unsupported("Catcher._from_decorator is assigned outside Catcher.__init__ (the flag must be fixed per object)")
-        cexit = find_func(ccls[0], "__exit__")
-        if "from_decorator = self._from_decorator" not in [_src(x) for x in ast.walk(cexit) if isinstance(x, ast.Assign)]:
-            raise Unsupported("Catcher.__exit__ does not read self._from_decorator")
+        # what matters: the 2nd positional argument of the one `logger._log(...)` call IS the object's flag
+        # (directly or through a single-assignment local alias, whatever its name)
+        cexit = inline_aliases(find_func(ccls[0], "__exit__"))
         logs = [n for n in ast.walk(cexit) if isinstance(n, ast.Call) and _src(n.func) == "logger._log"]
-        if len(logs) != 1 or len(logs[0].args) < 2 or _src(logs[0].args[1]) != "from_decorator":
-            raise Unsupported("Catcher.__exit__ does not pass from_decorator to logger._log")
+        if len(logs) != 1 or len(logs[0].args) < 2 or _src(logs[0].args[1]) != "self._from_decorator":
+            raise Unsupported("Catcher.__exit__ does not pass self._from_decorator to logger._log: "
+                              + "; ".join(_src(l) for l in logs))
         ccall = find_func(ccls[0], "__call__")
         mk = [n for n in ast.walk(ccall) if isinstance(n, ast.Assign) and _src(n.targets[0]) == "catcher"]
         if len(mk) != 1 or not (isinstance(mk[0].value, ast.Call) and _src(mk[0].value.func) == "Catcher"
